@@ -114,7 +114,8 @@ def theorem_names(module):
     ns = re.search(r'^namespace\s+([\w.]+)', src, re.M)
     prefix = ns.group(1) + '.' if ns else ''
     out = []
-    for m in re.finditer(r'^(?:@\[[^\]]*\]\s*)?(?:private\s+|protected\s+)?theorem\s+([\w.\']+)', src, re.M):
+    # private theorems are helpers (their names are mangled); property theorems are public
+    for m in re.finditer(r'^(?:@\[[^\]]*\]\s*)?(?:protected\s+)?theorem\s+([\w.\']+)', src, re.M):
         line = src.count('\n', 0, m.start()) + 1
         out.append((prefix + m.group(1), line))
     return out
@@ -333,3 +334,71 @@ def bits_float(s):
     if s == 'nan':
         return float('nan')
     return struct.unpack('<d', struct.pack('<Q', int(s)))[0]
+
+
+# ------------------------------------------------------------------ shared check phases
+
+def lean_phase(ctx, prop_module, regen_fn=None):
+    """Tie #1 + proof obligations: regenerate Gen/, build, audit. Returns the lean_obligations dict."""
+    with Lock():
+        if regen_fn is not None:
+            st = {}
+            regen_fn(st)
+            for name, s in st.items():
+                ctx.obligation(f'translator:{name}', 'translator', s['ok'], error=s.get('error'))
+            ctx.notes['translators'] = st
+        lo = lean_obligations(prop_module)
+        ctx.add_obligations(lo['obligations'])
+        if lo['forbidden']:
+            ctx.obligation('audit:forbidden-tokens', 'audit', False, error='; '.join(lo['forbidden']))
+        else:
+            ctx.obligation('audit:no-sorry-axiom-native_decide', 'audit', True)
+        ctx.notes['build_ok'] = not lo.get('build_failed', False)
+        ctx.notes['lean_log_tail'] = lo['log'][-1500:] if lo.get('build_failed') else ''
+    return lo
+
+
+def conclude(ctx, prop_failures, classify=None, search=None, required=''):
+    """Uniform verdict.
+
+    prop_failures: list of dicts, each a concrete input on which THE PROPERTY fails on the real code.
+    classify(failure) -> id of a listed known finding or None.
+    search() -> list of further property failures (bigger budget); only called when an obligation /
+               the correspondence is broken and no failing input is known yet.
+    """
+    listed = {f['id']: f for f in ctx.findings_for()}
+    unlisted = []
+    for pf in prop_failures:
+        fid = classify(pf) if classify else None
+        if fid and fid in listed:
+            ctx.known_finding(fid, listed[fid]['what'])
+        else:
+            unlisted.append(pf)
+    broken = ctx.broken()
+    if not unlisted and broken and search is not None:
+        more = search() or []
+        for pf in more:
+            fid = classify(pf) if classify else None
+            if fid and fid in listed:
+                ctx.known_finding(fid, listed[fid]['what'])
+            else:
+                unlisted.append(pf)
+    if unlisted:
+        seen = set()
+        for pf in unlisted:
+            key = pf.get('class', 'x')
+            if key in seen:
+                continue
+            seen.add(key)
+            ctx.violation('counterexample', {'counterexample': pf, 'required': required,
+                                             'failing_inputs_found': len(unlisted),
+                                             'broken_obligations': [o['name'] for o in broken]}, tag=pf.get('class'))
+            if len(seen) >= 3:
+                break
+    elif broken:
+        ctx.violation('broken-obligation',
+                      {'broken_obligations': broken, 'lean_log': ctx.notes.get('lean_log_tail', ''),
+                       'required': required,
+                       'note': 'a proof obligation, translator or the model/implementation correspondence no longer '
+                               'checks; the search on the real code found no input on which the property fails'},
+                      nofail=True)
